@@ -37,6 +37,12 @@ def tree(p):
     return out
 
 
+def stray(p):
+    """entries of the workspace that are not job directories of the project: 'import never writes outside the importing project's job directories'"""
+    ids = {j.id for j in p}
+    return sorted(x for x in os.listdir(p.workspace) if x not in ids)
+
+
 def collides(sps, path):
     """(repaired defects F17 / F18) the automatic path function gives textually equal or leaf/node-conflicting paths"""
     if path is None or (isinstance(path, str) and "auto" in path):
@@ -104,6 +110,8 @@ def scenario(seed):
                 return None, sig + ("import-needs-schema",)
             return f"import of the export raised {type(e).__name__}: {e}", sig
         got = tree(dst)
+        if stray(dst):
+            return f"the import wrote outside the job directories of the importing project: workspace entries {stray(dst)}", sig
         if set(got) != set(before):
             return f"ids after round trip {sorted(got)} != {sorted(before)}", sig
         for jid in before:
@@ -181,6 +189,8 @@ def zip_prefix_check():
             return f"zip import raised {type(e).__name__}: {e}"
         if sorted(j.id for j in dst) != sorted(j.id for j in src):
             return f"zip round trip with paths a/1, a/10, a/100: got {len(list(dst))} jobs"
+        if stray(dst):
+            return f"zip import of a/1, a/10, a/100 wrote outside the job directories: workspace entries {stray(dst)}"
         for j in dst:
             if sorted(os.listdir(j.path)) != sorted(os.listdir(src.open_job(id=j.id).path)):
                 return f"zip import of a/1, a/10, a/100 mixed files between jobs: {sorted(os.listdir(j.path))}"
